@@ -23,7 +23,9 @@ type GenOpts struct {
 	Small   bool // small numbers only (metrics workloads)
 }
 
-var textFrags = []string{"", "a", "GET", "POST", "http://goku:9090/path?x=1&y=2", `"`, ",", "\n", " ", "  lead", "trail  ", "é", "日本語", "\t", `\`, "'", ";", "{}", "[1,2]", "null", "%41", "x y", "\x00", "\r", "\r\n", "💥"}
+var textFrags = []string{"", "a", "GET", "POST", "http://goku:9090/path?x=1&y=2", `"`, ",", "\n", " ", "  lead", "trail  ", "é", "日本語", "\t", `\`, "'", ";", "{}", "[1,2]", "null", "%41", "x y", "\x00", "\r", "\r\n", "💥",
+	// blanks beyond ASCII (what unicode.IsSpace accepts), a byte-order mark, vertical tab and form feed
+	"\u00a0", "\u2003lead", "\u3000", "\u0085", "\u2028", "trail\u00a0", "\ufeff", "\v", "\f"}
 
 // GenText generates valid UTF-8 text with quotes, commas, newlines, blanks.
 func GenText(t *simrt.Tape, o GenOpts) string {
